@@ -50,15 +50,15 @@ def particle_sets(npart, box, dtype, maxfull):
     A = alphabet(npart, box, dtype)
     yield []
     for n in range(1, maxfull + 1):
-        if len(A) ** n <= (400 if maxfull < 3 else 6000):
+        if len(A) ** n <= (120 if maxfull < 3 else 6000):
             yield from (list(t) for t in itertools.product(A, repeat=n))
         else:
             # all ordered pairs/triples over a reduced alphabet (boundaries and their neighbours only)
             B = A[::2]
-            while len(B) ** n > (400 if maxfull < 3 else 6000):
+            while len(B) ** n > (120 if maxfull < 3 else 6000):
                 B = B[::2]
             yield from (list(t) for t in itertools.product(B, repeat=n))
-    for n in (4, 5, 7, 9):
+    for n in ((5, 9) if maxfull < 3 else (4, 5, 7, 9)):
         m = len(A)
         yield [A[(i * m) // n] for i in range(n)]                 # ascending spread
         yield [A[(i * m) // n] for i in range(n)][::-1]           # descending
